@@ -40,6 +40,7 @@ class Frame:
         self.globals_decl = set()
         self.on_yield = None
         self.yields = None              # list ref for generator ghost sequence
+        self.yparts = None              # ghost lists of the components of yielded pairs
         self.catching = []              # stack of lists of exception class names handled by enclosing try blocks
         self.loop_ord = {}
         self.depth = 0
